@@ -13,6 +13,9 @@ from __future__ import annotations
 
 import copy
 import json
+import shutil
+import subprocess
+import tempfile
 from pathlib import Path
 
 import c09_gen as G
@@ -62,24 +65,151 @@ def run_cases(chk, cases, label, old_model=False):
     fn = "case_ok_old" if old_model else "case_ok"
     texts = [
         vlib.COQ_HEADER
-        + "From Common Require Import Res Cases.\nFrom Routing Require Import Model Obs.\n"
+        + "From Common Require Import Res Cases.\nFrom Routing Require Import Model Obs Spec.\n"
         + "Definition cases : list case :=\n " + vlib.g_list([t for _, _, t in shard]) + ".\n"
         + f"Eval vm_compute in mismatches {fn} cases.\n"
+        # the theorem predicate Spec.trace_ok_b (proved for every model observation:
+        # C09_trace_predicate_holds) evaluated on the IMPLEMENTATION's observations
+        + "Eval vm_compute in mismatches trace_ok_case cases.\n"
         for shard in shards
     ]
     results = vlib.coq_eval_many(AREA, texts, jobs=12)
     ok = True
     for shard, (rc, out) in zip(shards, results):
-        bad = vlib.parse_nat_list(out)
-        if rc != 0 or bad is None:
+        lists = vlib.parse_all_lists(out)
+        if rc != 0 or len(lists) != 2:
             ok = False
             chk.corr_failure("routing", {"shard": f"coq evaluation failed ({label})"}, out[-2000:])
             continue
+        bad, bad_trace = lists
         for i in bad:
             ok = False
             case, obs, _ = shard[i]
             chk.corr_failure("routing", case, {"impl_outcome": obs["outcome"], "impl_log": obs["log"]})
+        for i in bad_trace:
+            case, obs, _ = shard[i]
+            chk.monitor_failure("coq_trace_ok", {"call": case["op"]["name"]},
+                                "Spec.trace_ok_b (keys exact / routing sound / unknown scheme empty / typed entries / "
+                                "raise shape) is false on the implementation's observation",
+                                {"case": case, "observed": {"outcome": obs["outcome"], "log": obs["log"]}})
     return ok
+
+
+SCHEME_ALPHABET = list("aAbZz09+-.:/ \t\n\r\x00\x1f\x7f?#%@") + ["é", "İ", "ß", "\u00a0", "\u2028", "[", "]", "::", "a:", ":a"]
+
+
+def scheme_stage(chk):
+    """Scheme.scheme_of (transcription of urlsplit's scheme logic) against urlparse on odd strings."""
+    import urllib.parse
+
+    from common.vlib import g_list, g_str
+
+    n = 2000 if chk.tier == "quick" else 30000
+    rng = vlib.Rng(chk.seed, "C09-scheme")
+    strings = ["", ":", "a", "a:", ":a", "A:b", " a:b", "\ta:b", "a\t:b", "a\nb:c", "1a:b", "a1+.-:x", "a b:c", "é:x",
+               "aé:x", "a:b:c", "\x00\x1f a:b", "a\x00:b", "a:\n", "file:///x", "HTTP://h", "a%41:b", "a/b:c"]
+    for _ in range(n):
+        if rng.random() < 0.4:
+            strings.append("".join(rng.choice(SCHEME_ALPHABET) for _ in range(rng.randint(0, 7))))
+            continue
+        lead = "".join(rng.choice(" \t\n\x00\x1f") for _ in range(rng.weighted([(0, 5), (1, 2), (3, 1)])))
+        body = "".join(rng.choice("abzABZ09+-.") for _ in range(rng.randint(1, 6)))
+        if rng.random() < 0.35:  # one disturbance inside the would-be scheme
+            i = rng.randrange(len(body) + 1)
+            body = body[:i] + rng.choice(["\t", "\n", "\r", " ", "é", "/", "%", "_", "\x00", ":"]) + body[i:]
+        tail = "".join(rng.choice(SCHEME_ALPHABET) for _ in range(rng.randint(0, 5)))
+        strings.append(lead + body + ":" + tail)
+    rows, raised = [], 0
+    for s in strings:
+        try:
+            rows.append((s, urllib.parse.urlparse(s).scheme))
+        except ValueError:  # unbalanced IPv6 brackets in the netloc: outside the transcribed part
+            raised += 1
+    chk.dist("scheme-strings", len(rows))
+    chk.dist("scheme-strings-urlparse-raises", raised)
+    chk.dist("scheme-strings-with-scheme", sum(1 for _, x in rows if x))
+    chk.count(len(rows))
+    shards = [rows[i : i + 1000] for i in range(0, len(rows), 1000)]
+    texts = [vlib.COQ_HEADER + "From Common Require Import Str Cases.\nFrom Routing Require Import Model Obs Spec.\n"
+             + "Definition cases : list (str * str) :=\n "
+             + g_list([f"({g_str(a)}, {g_str(b)})" for a, b in shard]) + ".\n"
+             + "Eval vm_compute in mismatches scheme_case_ok cases.\n" for shard in shards]
+    ok = True
+    for shard, (rc, out) in zip(shards, vlib.coq_eval_many(AREA, texts, jobs=12)):
+        bad = vlib.parse_nat_list(out)
+        if rc != 0 or bad is None:
+            ok = False
+            chk.corr_failure("scheme", {"shard": "coq evaluation failed"}, out[-1500:])
+            continue
+        for i in bad:
+            ok = False
+            chk.corr_failure("scheme", {"string": shard[i][0], "urlparse_scheme": shard[i][1]})
+    chk.obligation("corr:scheme", "correspondence", ok)
+
+
+FIRST_FIX = "402e4a8"  # library.py of its parent commit is the code modelled by run_old
+
+
+def old_code_stage(chk, n):
+    """Thorough tier: the model of the pre-fix lookup/get_images (run_old, subject of the
+    *_old_*_refuted theorems) against library.py as it was before the fix: commits."""
+    import c09_emit as E
+
+    tmp = Path(tempfile.mkdtemp(prefix="verif-c09-old-"))
+    try:
+        p = subprocess.run(["git", "-C", str(vlib.REPO), "show", f"{FIRST_FIX}^:src/mopidy/core/library.py"],
+                           capture_output=True, text=True, check=False)
+        if p.returncode != 0 or "def lookup" not in p.stdout:
+            chk.notes.append("old-code stage skipped: pre-fix library.py not available from git")
+            return
+        shutil.copytree(vlib.REPO / "src", tmp / "src", ignore=shutil.ignore_patterns("__pycache__"))
+        (tmp / "src/mopidy/core/library.py").write_text(p.stdout)
+        env = vlib.impl_env()
+        env["VERIF_REPO"] = str(tmp)
+        env["PYTHONPATH"] = f"{tmp}/src:{vlib.FAKEGI}:{vlib.VERIF}/harness"
+        r = subprocess.run([vlib.PY, "-B", str(vlib.VERIF / "harness/c09_oldrun.py"), str(n), str(chk.seed)],
+                           env=env, capture_output=True, text=True, timeout=900, check=False)
+        if r.returncode != 0:
+            chk.obligation("corr:routing_old", "correspondence", False, r.stderr[-1500:])
+            return
+        rows = json.loads(r.stdout)
+    finally:
+        shutil.rmtree(tmp, ignore_errors=True)
+    terms, kept = [], []
+    for case, obs in rows:
+        try:
+            terms.append(E.case_term(case, obs))
+            kept.append((case, obs))
+        except E.Unencodable:
+            continue
+    shards = [terms[i : i + SHARD] for i in range(0, len(terms), SHARD)]
+
+    def text(fn, shard):
+        return (vlib.COQ_HEADER + "From Common Require Import Res Cases.\nFrom Routing Require Import Model Obs Spec.\n"
+                + "Definition cases : list case :=\n " + vlib.g_list(shard) + ".\n"
+                + f"Eval vm_compute in mismatches {fn} cases.\n")
+
+    res_old = vlib.coq_eval_many(AREA, [text("case_ok_old", s) for s in shards], jobs=12)
+    res_new = vlib.coq_eval_many(AREA, [text("case_ok", s) for s in shards], jobs=12)
+    ok, differ = True, 0
+    for i, ((rc, out), (rc2, out2)) in enumerate(zip(res_old, res_new)):
+        bad, bad2 = vlib.parse_nat_list(out), vlib.parse_nat_list(out2)
+        if rc != 0 or bad is None or rc2 != 0 or bad2 is None:
+            ok = False
+            chk.notes.append("old-code stage: coq evaluation failed: " + (out + out2)[-500:])
+            continue
+        differ += len(bad2)
+        for k in bad:
+            ok = False
+            case, obs = kept[i * SHARD + k]
+            chk.notes.append("old model differs from the pre-fix code on: " + json.dumps([case, obs["outcome"]])[:1500])
+    chk.count(len(kept))
+    chk.dist("old-code-cases", len(kept))
+    chk.dist("old-code-cases-where-fixed-model-differs", differ)
+    # the pre-fix code must be distinguishable from the present model, otherwise the
+    # refutations would be about nothing
+    chk.obligation("corr:routing_old", "correspondence", ok and differ > 0,
+                   "" if ok else "run_old disagrees with the pre-fix library.py")
 
 
 def search_hook_factory(chk):
@@ -116,7 +246,8 @@ def run(chk):
         "Coq 8.16.1 kernel + vm_compute (no native_compute)",
         "harness/c09*.py: generator, scripted fake backend/mixer proxies (futures with .get()), Gallina emitter, "
         "canonicalisation of results and call log",
-        "urllib.parse.urlparse(uri).scheme as an oracle (scheme ids are interned by the harness)",
+        "urllib.parse.urlparse(uri).scheme: transcribed in coq/Routing/Scheme.v and compared with urlparse on every "
+        "URI of every case and on a stream of odd strings; scheme ids are interned by the harness",
     ]
     chk.assumptions = [
         "pykka proxies/futures are modelled as synchronous calls whose .get() raises or returns (not verified)",
@@ -133,11 +264,16 @@ def run(chk):
     cases = load_corpus()
     chk.dist("corpus", len(cases))
     cases += G.sweep_cases()
+    if chk.tier == "thorough":
+        pairs = G.sweep_cases(pairs=True)
+        chk.dist("sweep-fault-pairs", len(pairs))
+        cases += pairs
     n = 2500 if chk.tier == "quick" else 40000
     rng = chk.rng
     cases += [G.gen_case(rng) for _ in range(n)]
     ok = run_cases(chk, cases, "main")
     chk.obligation("corr:routing", "correspondence", ok)
-    # the model of the pre-fix code must DISAGREE with the fixed implementation somewhere
-    # (otherwise the _refuted theorems talk about a model that is not the old code)
+    scheme_stage(chk)
+    if chk.tier == "thorough":
+        old_code_stage(chk, 6000)
     M.finish(chk)
